@@ -16,11 +16,12 @@ from . import common, instrument, runner, tlc
 
 PID = "C11"
 # an argument >= 100 stands for a two-item LIST: 156 is ⟨5|6⟩ (a call whose single argument is itself a list)
-ARGS = [[], [7], [7, 8], [7, 8, 9], [156], [4, 123]]
+# ... and 99 for the EMPTY list; 0 is an ordinary value (falsy values must be delivered like any other)
+ARGS = [[], [7], [7, 8], [7, 8, 9], [156], [4, 123], [0], [0, 7], [8, 0], [99], [99, 0]]
 
 
 def lit(x):
-    return f"⟨{(x - 100) // 10}|{x % 10}⟩" if x >= 100 else f"{x} "
+    return "⟨⟩" if x == 99 else f"⟨{(x - 100) // 10}|{x % 10}⟩" if x >= 100 else f"{x} "
 
 
 def compile_history(hist):
@@ -34,11 +35,12 @@ def compile_history(hist):
         elif a == "P":
             out.append({1: ",", 2: "\",", 3: "\"\","}[h["k"]])
         elif a == "L":
-            k = len(h["args"])
+            # `miss`: that many of the k arguments are NOT pushed -- the call takes them from the caller's input
+            k = len(h["args"]) + h.get("miss", 0)
             out.append("".join(lit(x) for x in h["args"]) + f"λ{k}|" + "_" * k)
             stack.append(";†_")
         elif a == "F":
-            k = len(h["args"])
+            k = len(h["args"]) + h.get("miss", 0)
             # distinct names: a nested definition of the same name would make VAR_f local in the
             # enclosing function body (Python scoping of the transpiled code), which is not this property
             name = "fghjmpqrstuvwyzb"[fcount % 16] + ("" if fcount < 16 else "abcdefgh"[(fcount // 16) % 8])
@@ -88,6 +90,8 @@ def patch_get_input():
         if outer:
             j = runner.value_json(v)
             code = j["i"] if "i" in j else -999
+            if "l" in j and len(j["l"]) == 0:
+                code = 99
             if "l" in j and len(j["l"]) == 2 and all("i" in x and 0 <= x["i"] <= 9 for x in j["l"]):
                 code = 100 + 10 * j["l"][0]["i"] + j["l"][1]["i"]
             _reads.append({"kind": kind, "depth": depth, "v": code})
@@ -112,9 +116,10 @@ def observe(case):
             "raised": fin["raised"], "reads": list(_reads)}
 
 
-def histories(maxlen, rng=None, n=None, maxdepth=2):
+def histories(maxlen, rng=None, n=None, maxdepth=2, full_upto=2):
     acts = [{"a": "E"}] + [{"a": "P", "k": k} for k in (1, 2, 3)] + \
-           [{"a": "L", "args": a} for a in ARGS] + [{"a": "F", "args": a} for a in ARGS] + [{"a": "X"}, {"a": "X", "early": True}]
+           [{"a": "L", "args": a} for a in ARGS] + [{"a": "F", "args": a} for a in ARGS] + [{"a": "X"}, {"a": "X", "early": True}] + \
+           [{"a": k, "args": a, "miss": m} for k in ("L", "F") for a in ([], [7], [0, 8]) for m in (1, 2)]
 
     def ok(h):
         d = 0
@@ -129,9 +134,13 @@ def histories(maxlen, rng=None, n=None, maxdepth=2):
                     return False
         return True
 
+    # exhaustive enumeration: every action up to length full_upto; beyond that the core actions (reads, calls
+    # with 0-2 plain arguments, both ways of leaving) -- the other argument shapes are met in the random histories
+    core = [a for a in acts if a["a"] in ("E", "P", "X") or (a.get("args") in ([], [7], [7, 8], [0]) and "miss" not in a)] + \
+           [a for a in acts if a.get("miss") == 1 and a.get("args") == [7]]
     if rng is None:
         for L in range(0, maxlen + 1):
-            for h in itertools.product(acts, repeat=L):
+            for h in itertools.product(acts if L <= full_upto else core, repeat=L):
                 if ok(h):
                     yield list(h)
     else:
@@ -151,11 +160,12 @@ def main(tier):
     t0 = time.time()
     rng = common.rng(11)
     V = common.Verdicts(PID)
-    inputs_all = [list(t) for n in range(0, 4) for t in itertools.product((1, 2, 3), repeat=n)]
+    inputs_all = [list(t) for n in range(0, 4) for t in itertools.product((1, 2, 3), repeat=n)] + \
+                 [[0], [5, 0, 7], [0, 0], [0, 4], [3, 0]]
     cs = []
     exh = 3 if tier == "quick" else 4
     for h in histories(exh):
-        for inp in ([], [1], [1, 2], [3, 1, 2]):
+        for inp in ([], [1], [1, 2], [3, 1, 2], [5, 0, 7]):
             cs.append((inp, h))
     for h in histories(12, rng, 2500 if tier == "quick" else 50000, maxdepth=3):
         cs.append((rng.choice(inputs_all + [[5, 6, 7, 8]]), h))
@@ -167,6 +177,22 @@ def main(tier):
                               on_timeout=lambda c: {"inputs": c[0], "hist": close_history(c[1]), "text": [], "out": [],
                                                     "raised": "timeout", "reads": []})
         verdicts, st = tlc.validate(s, "Trace_Input", obs, cfg="Trace_Input.cfg", chunk=3000)
+        # the input rules of the full machine (VyMachine: pops that fall back on the inputs, scopes of lambdas and
+        # functions, calls that pass their arguments explicitly vs. calls that pop a stored arity): programs in
+        # which reads follow such calls, validated in lock-step like C01's
+        from . import machine
+        mprogs = []
+        for lam in ["λ1+;", "λ+;", "λ_?;", "λ?+;", "λ2|+;", "λ0|?;", "λ:+;"]:
+            for sar in ["", "2*", "0*", "3*", "1*"]:
+                for use in ["M", "F", "†", "†_", ":†$†", "M∑", "vd_", "ṡ", "R", "ƒ+_"]:
+                    for src in ["⟨1|2⟩", "", "5 "]:
+                        for tail in [",?,?,", ",,", "?,+,"]:
+                            mprogs.append(src + lam + sar + use + tail)
+        mprogs = list(dict.fromkeys(mprogs))
+        if tier == "quick":
+            mprogs = mprogs[:: 3]
+        mcs = [(p, "", inp) for p in mprogs for inp in ([10, 20, 30], [], [4])]
+        mobs, mv, _, mst = machine.validate(s, mcs)
     tally = {}
     for (inp, h), v, o in zip(cs, verdicts, obs):
         tally[v] = tally.get(v, 0) + 1
@@ -176,6 +202,13 @@ def main(tier):
                   {"program": prog, "inputs": inp, "history": h, "reads": o["reads"], "printed": common.uncps(o["out"])})
         elif v.startswith("specviolation"):
             V.add_drift({"inputs": inp, "history": h, "verdict": v})
+    mt = {}
+    for (p, fl, inp), v in zip(mcs, mv):
+        key = ":".join(v.split(":")[:2]) if v.startswith("skip") else v
+        mt[key] = mt.get(key, 0) + 1
+        if v.startswith("violation"):
+            V.add(f"machine:{v.split(':', 1)[1]}:{p!r}:inputs={inp!r}", {"program": p, "inputs": inp, "verdict": v})
+    tally["machine-programs"] = mt
     rc = V.finish()
     common.write_evidence(
         PID, tier, t0,
